@@ -77,6 +77,10 @@ def new_spec(desc):
     sem = SEMANTICS[desc.get('semantics', 'standard')]
     spec = api('construct', CLASSES[desc['cls']], sem)
     spec.name = desc.get('name', 'sim')
+    structs = set(v for v, ty in desc.get('vars', []) if ty == 'Msg')
+    if structs:
+        api('import_module', spec.import_module, 'sim.msgs', 'Msg')
+    spec._verif_structs = structs          # harness bookkeeping: these variables are fed with Msg objects, read through .value
     for v, ty in desc.get('vars', []):
         api('declare_var', spec.declare_var, v, ty)
     for c, ty, val in desc.get('consts', []):
@@ -124,24 +128,35 @@ def dt_dataset(times, data, order=None):
     return ds
 
 
+def _wrap(spec, v, x):
+    if v in getattr(spec, '_verif_structs', ()):
+        from .msgs import Msg
+        return Msg(x)
+    return x
+
+
 def dt_evaluate(spec, times, data, order=None):
     """returns the list of values (one per sample); checks the [t, v] pairing separately"""
+    if getattr(spec, '_verif_structs', None):
+        data = dict((v, [_wrap(spec, v, x) for x in data[v]]) for v in data)
     ds = dt_dataset(times, data, order)
     out = api('evaluate', spec.evaluate, ds)
     return out
 
 
 def dt_update(spec, t, inputs):
+    if getattr(spec, '_verif_structs', None):
+        inputs = [(v, _wrap(spec, v, x)) for v, x in inputs]
     return api('update', spec.update, t, inputs)
 
 
 def ct_evaluate(spec, signals, order=None):
-    args = [[v, [list(s) for s in signals[v]]] for v in (order or sorted(signals))]
+    args = [[v, [[s[0], _wrap(spec, v, s[1])] for s in signals[v]]] for v in (order or sorted(signals))]
     return api('evaluate', spec.evaluate, *args)
 
 
 def ct_update(spec, batches, order=None):
-    args = [[v, [list(s) for s in batches[v]]] for v in (order or sorted(batches))]
+    args = [[v, [[s[0], _wrap(spec, v, s[1])] for s in batches[v]]] for v in (order or sorted(batches))]
     return api('update', spec.update, *args)
 
 
